@@ -187,7 +187,7 @@ def run(ctx):
         f = P.fns.get(key)
         if f and f.has_body:
             v = FnView.get(P, f)
-            oks = [v.cx.operand(rv["ops"][0]) for (b, k, rv) in ret_writes(f) if k == "ok"]
+            oks = ok_values(f, v)
             good = len(oks) == 1
             if good:
                 R, z = get_field(oks[0], "R"), get_field(oks[0], "z")
